@@ -64,6 +64,7 @@ pub fn worker(a: &[String]) -> i32 {
     // progress word shared with the parent through a file mapping
     let prog_path = format!("{}.prog", outfile);
     fs::write(&prog_path, [0u8; 8]).unwrap();
+    std::env::set_var("JLMC_PROG", &prog_path);
     let prog_ptr = unsafe {
         let c = std::ffi::CString::new(prog_path.clone()).unwrap();
         let fd = libc::open(c.as_ptr(), libc::O_RDWR);
